@@ -361,8 +361,8 @@ func rewriteSimpleJoinCondition(c parser.Expr) parser.Expr {
 
 func hasJoinTerms(x parser.Expr) (left, right bool) {
 	parser.Walk(x, func(n parser.Node) bool {
-		if n, ok := n.(*parser.Ident); ok {
-			switch n.Name {
+		if n, ok := n.(*parser.QualifiedIdent); ok && len(n.Parts) > 1 {
+			switch n.Parts[0].Name {
 			case leftJoinTableAlias:
 				left = true
 			case rightJoinTableAlias:
